@@ -39,7 +39,8 @@ def oracle(ctx, util, xs):
     n = 0
     for s in xs:
         n += 1
-        for q in (True, False):
+        # both orders of the two quoting modes: each call must satisfy the property whatever was called before
+        for q in ((True, False) if n % 2 else (False, True, False)):
             e = util.escape(s, quote=q)
             if "<" in e or ">" in e or (q and '"' in e):
                 ctx.fail("escape-special", "escape(%r, quote=%s) contains a raw special" % (s, q), {"fn": "escape", "s": s, "quote": q, "out": e})
@@ -98,8 +99,10 @@ def run(ctx):
     import mistune.util as util
     ctx.broken += common.proof_stage(ctx, THEOREMS)
     xs = inputs(ctx)
-    correspondence(ctx, util, xs)
+    # the property's own oracle runs first, on a module nobody has called yet (a result that depends on earlier calls
+    # shows only if the unfavourable call comes first), then the model tie
     n = oracle(ctx, util, xs)
+    correspondence(ctx, util, xs)
     if ctx.broken and not ctx.failures:
         # search mode: much larger budget on the implementation with the property's own oracle
         ctx.notes.append("search mode entered: " + "; ".join(ctx.broken)[:300])
